@@ -211,7 +211,7 @@ class TriangleBoundary(BoundaryDomain):
         points = points[:, list(self.space.keys())].as_tensor
         points -= origin
         bary_x, bary_y = self.domain._solve_lgs(points, dir_1, -dir_3)
-        atol = _bary_atol(origin, dir_1, -dir_3)
+        atol = _bary_atol(origin, dir_1, -dir_3, points.dtype)
         x_close_to_0 = self._bary_coords_close_to_0_or_1(bary_x, bary_y, atol)
         y_close_to_0 = self._bary_coords_close_to_0_or_1(bary_y, bary_x, atol)
         sum_close_to_1 = _bary_close(bary_x + bary_y, 1.0, atol)
@@ -302,7 +302,7 @@ class TriangleBoundary(BoundaryDomain):
         normal_dir_3 = self._get_normal_direction(dir_3, device)
         # compute for each point what the normal vector should be, by checking the
         # value of the local barycentric coordinate = 0 or sum = 1
-        atol = _bary_atol(origin, dir_1, -dir_3)
+        atol = _bary_atol(origin, dir_1, -dir_3, points.dtype)
         self._add_local_normal_vector(normals, bary_x, normal_dir_3, 0.0, atol)
         self._add_local_normal_vector(
             normals, (bary_x + bary_y), normal_dir_2, 1.0, atol
